@@ -1,5 +1,5 @@
 (* Lemmas for C09 (hook failures) about the model of coq/model/EnvHooks.v. *)
-From Verif Require Import Common EnvHooks EnvHooks_proofs.
+From Verif Require Import Common Gen_HookFail EnvHooks EnvHooks_proofs.
 From Coq Require Import ZArith List Bool Lia Sorting.Sorted.
 Import ListNotations.
 Open Scope N_scope.
@@ -862,4 +862,26 @@ Proof.
   pose proof (run_op_nocrash _ _ _ _ _ _ _ E) as Hr.
   destruct res; try contradiction;
     (specialize (IH (N.succ i) s1); destruct (run_ops hooks (N.succ i) ops s1) as [s2 l2]; cbn in *; exact IH).
+Qed.
+
+(* ------------------------------------------------------------------ which reports are failures *)
+(* tied to the source: the comparison on the exit code and the involuntary test are read from
+   runTasksAsHooks by the translator (Gen_HookFail) *)
+Lemma term_fails_spec c vol : term_fails c vol = true <-> (c <> 0%Z \/ vol = false).
+Proof.
+  unfold term_fails, exit_fails, gen_exit_op, gen_exit_lit, gen_invol_fails. cbn.
+  rewrite orb_true_iff, negb_true_iff, Z.eqb_neq, negb_true_iff. tauto.
+Qed.
+
+(* a hook task alone at its weight: its termination report decides *)
+Lemma tout_of_single h o : tout_of [(h, o)] h = o.
+Proof. unfold tout_of. cbn. rewrite N.eqb_refl. reflexivity. Qed.
+
+Lemma single_task_report h c v f :
+  run_tasks [h] [(h, TTermX c v f)] = LDone (if term_fails c v then [h] else []).
+Proof.
+  unfold run_tasks, trig_fails, sched_of. cbn [existsb filter flat_map map app].
+  rewrite !tout_of_single. cbn. rewrite !N.eqb_refl. cbn.
+  unfold term_fails, exit_fails, gen_exit_op, gen_invol_fails. cbn.
+  destruct (negb (c =? gen_exit_lit)%Z || negb v); reflexivity.
 Qed.
